@@ -7,6 +7,7 @@ import (
 
 	"berty.tech/go-orbit-db/internal/vstub"
 	"berty.tech/go-orbit-db/internal/vstubodb"
+	cid "github.com/ipfs/go-cid"
 )
 
 func init() {
@@ -36,6 +37,7 @@ func VerifC08Writers() {
 	}
 	ctx := context.Background()
 	prev := make([][]string, w)
+	bound := make([]string, w)
 	own := make([][]string, w)
 	total := 0
 	check := func() {
@@ -53,6 +55,14 @@ func VerifC08Writers() {
 			}
 			prev[k] = l
 			latestIsTail(rs[k], l)
+			// the SAME bound is queried on the same store instance after every step: a
+			// window is a function of the current listing only, whatever was asked before
+			if bound[k] == "" && len(l) > 0 {
+				bound[k] = l[len(l)-1]
+			}
+			if bound[k] != "" {
+				windowsAt(rs[k], l, bound[k])
+			}
 		}
 	}
 	for s := 0; s < steps; s++ {
@@ -120,5 +130,59 @@ func latestIsTail(r *vstubodb.Replica, l []string) {
 	}
 	if len(r.Store.OpLog().Heads().Slice()) > 1 {
 		vstub.Cover("latest-with-several-heads")
+	}
+}
+
+// windowsAt: gt / gte / lt / lte queries with amount 2 bounded by the listed entry h
+// return exactly the corresponding contiguous window of the full listing l.
+func windowsAt(r *vstubodb.Replica, l []string, h string) {
+	idx := indexOf(l, h)
+	if idx < 0 {
+		vstub.Fail("C08 a listed entry disappeared from the listing")
+		return
+	}
+	var c cid.Cid
+	for _, e := range r.Store.OpLog().Values().Slice() {
+		if e.GetHash().String() == h {
+			c = e.GetHash()
+		}
+	}
+	two := 2
+	clip := func(lo, hi int) []string {
+		if lo < 0 {
+			lo = 0
+		}
+		if hi > len(l) {
+			hi = len(l)
+		}
+		if lo > hi {
+			lo = hi
+		}
+		return l[lo:hi]
+	}
+	cases := []struct {
+		o    *iface.StreamOptions
+		want []string
+		what string
+	}{
+		{&iface.StreamOptions{GT: &c, Amount: &two}, clip(idx+1, idx+3), "gt"},
+		{&iface.StreamOptions{GTE: &c, Amount: &two}, clip(idx, idx+2), "gte"},
+		{&iface.StreamOptions{LT: &c, Amount: &two}, clip(idx-2, idx), "lt"},
+		{&iface.StreamOptions{LTE: &c, Amount: &two}, clip(idx-1, idx+1), "lte"},
+	}
+	for _, q := range cases {
+		ops, err := r.Store.(*orbitDBEventLogStore).List(context.Background(), q.o)
+		if err != nil {
+			vstub.Fail("C08 bounded List failed")
+			return
+		}
+		var got []string
+		for _, op := range ops {
+			got = append(got, op.GetEntry().GetHash().String())
+		}
+		vstub.Assert(vstubodb.SameStrings(got, q.want), "C08 a bounded query ("+q.what+", amount 2) on a bound that was queried before returns the window of the CURRENT listing")
+	}
+	if idx > 0 && idx < len(l)-1 {
+		vstub.Cover("bound-in-the-middle")
 	}
 }
